@@ -11,6 +11,7 @@ import (
 	"bytes"
 	"errors"
 	"io"
+	"math"
 	"os"
 	"path"
 	"path/filepath"
@@ -109,6 +110,8 @@ func NewParser(ctx *processors.Context, reader io.Reader) *Parser {
 // could not be parsed.
 func (p *Parser) Parse(formatOnly bool) (*bytes.Buffer, int) {
 	fileScanner := bufio.NewScanner(p.src)
+	// lines may be longer than bufio.MaxScanTokenSize
+	fileScanner.Buffer(nil, math.MaxInt)
 	fileScanner.Split(bufio.ScanLines)
 	wrote := 0
 	var text string
